@@ -79,6 +79,7 @@ let () = register "cache" (fun args ->
           | [ "sweep" ] -> st := do_sweep cfg !st (nonclear_blocked ()); Some "ok"
           | [ "tick"; d ] -> st := do_time cfg !st (z_of_string d); Some "ok"
           | [ "est"; k; v ] -> st := do_est cfg !st (n_of_string k) (z_of_string v); Some ("ok " ^ v)
+          | [ "estcheck"; k ] -> Some (string_of_z (!st.s_est (n_of_string k)))
           | [ "metrics" ] ->
               if not !st.s_met.m_on then Some "nil"
               else
